@@ -1,11 +1,11 @@
 COMPLETE = " Complete over the stated finite domain (no sampling): the metric choices are solver variables."
 claim("C01",
       "Bounded symbolic model checking, complete over the finite domain: all 2 x 2,592 canonical v3 base vectors are decoded by the real Base.Decode and scored by the real Base.Score under symbolic metric choices; the solver proves that no choice makes the score differ from the exact-rational FIRST equations (v3.0 ceiling rule / v3.1 Appendix-A rule) or violates the zero-iff-no-impact rule. Thorough adds the roundUp kernel lemma over every float64 in [0,10] in pure FloatingPoint theory.",
-      "Token order independence is delegated to C09; floats are ITE-lifted constants folded by the host FPU (DESIGN.md D-float).",
+      "Other token orders and the two higher decoders: the transposition cubes of the edit harnesses (every swap of two tokens of the canonical base / temporal vector: score and severity equal those of a twin object with the same exported fields) run under C01 as well; floats are ITE-lifted constants folded by the host FPU (DESIGN.md D-float), cross-checked in the thorough tier by 54 pure-FloatingPoint cubes decided by cvc5.",
       "DESIGN.md 6/C01")
 claim("C02",
       "Complete over 518,400 temporal vectors (plus every omission pattern of E/RL/RC): the real Temporal.Decode and Temporal.Score against Roundup(base x E x RL x RC) in exact rationals, stated on the library's own base score, which in turn is proved equal to the FIRST base score in the same harness (composition written in the harness).",
-      "Canonical token order (others by C09).",
+      "Other token orders: the transposition cubes of the temporal edit harness run under C02 as well.",
       "DESIGN.md 6/C02")
 claim("C03",
       "Complete over the 1.1e12-vector product: 100 cubes over (E,RL,RC), in each cube version, the 8 base and the 11 environmental metrics are solver variables; real Environmental.Decode and Score against the exact-rational FIRST environmental equations (effective Modified metrics, 0.915 cap, per-version polynomial, double round-up). Thorough adds a second, independent cube split over (version,S,MS) and the E=RL=RC=X harness with two solvers.",
@@ -17,7 +17,7 @@ claim("C04",
       "DESIGN.md 6/C04, 7")
 claim("C05",
       "Complete over 729 x 101 x 1,920 vectors: a chain of step lemmas on the library's own intermediate values (adjusted impact, adjusted base, adjusted temporal, outer equation), each against the exact FIRST equation with set-valued rounding; the outer equation additionally as a kernel lemma over every tenth-grid input; absent environmental group equals temporal score. Finding F1 (two-decimal rounding of AdjustedImpact / Exploitability) is handled by a deviation model: anything outside specification-or-deviation is a VIOLATION.",
-      "The chain mirrors the structure of Environmental.Score; a refactoring that breaks the mirror makes the check inconclusive, not failing.",
+      "The chain is stated over unexported helpers (Base.score, Temporal.score): a counterexample of a link counts as a violation only if the native end-to-end oracle VH_C05_env_e2e (exported API, exact rationals, F1 deviation model) confirms it on the same input; otherwise, or when the chain no longer type-checks, the answer is inconclusive (exit 2), never a false alarm.",
       "DESIGN.md 6/C05, 7")
 claim("C06",
       "Per level and version, complete domains: score = float64(k)/10 with 0<=k<=100, FormatFloat prints at most one decimal, Severity() is the band of the same level's score (v2 environmental: vectors with a negative specification equation exempt, as the property says); severity() kernels over every float64 bit pattern in FloatingPoint theory; report score fields (C17 harnesses).",
@@ -48,18 +48,18 @@ claim("C12",
       "Unbounded string lengths are covered (SMT strings); token counts beyond the Layer-B bounds only through the step lemmas.",
       "DESIGN.md 6/C12, 7")
 claim("C13",
-      "Relational assertions on complete domains: temporal with all Not Defined equals base (v2, v3), temporal <= base, v3 environmental with all eleven metrics X or omitted equals temporal unless v3.1 and scope changed, v2 environmental with TD:N is 0.",
+      "Relational assertions on complete domains: temporal with all Not Defined equals base (v2, v3), temporal <= base, v3 environmental with all eleven metrics X or omitted equals temporal unless v3.1 and scope changed, v2 environmental group all Not Defined equals temporal, v2 environmental with TD:N is 0; the temporal / base comparisons are also made through an environmental object whose environmental score was queried first.",
       "", "DESIGN.md 6/C13")
 claim("C14",
-      "Accessors return the embedded objects (pointer identity in the heap model, nil-safe); for every canonical environmental vector the scores, severities and encodings seen through higher-level objects equal those of independent lower-level decodes; the higher-level decodeOne acts on the embedded object exactly as the lower-level step (both equal the same reference step, Layer A).",
-      "", "DESIGN.md 6/C14")
+      "Accessors return the embedded objects (pointer identity in the heap model, nil-safe); for every canonical environmental vector the scores, severities and encodings seen through higher-level objects equal those of independent lower-level decodes; the higher-level decodeOne acts on the embedded object exactly as the lower-level step (both equal the same reference step, Layer A); the comparisons hold whether or not the environmental score was queried first, and a decoder object that accepts a second vector returns what a fresh decoder returns (conditional: the pinned decoders reject every reuse).",
+      "", "DESIGN.md 6/C14, 12.1")
 claim("C15",
-      "Frame conditions over the symbolic heap: every query, report construction and export leaves every pre-existing heap cell (object fields, names maps, package-level tables) unchanged for every input in the bounds; Decode writes only to objects it allocates; constructors share nothing; GetX results do not depend on the map iteration order (symbolic permutation, C20 harnesses). One arbitrary step from an arbitrary state covers histories of any length.",
-      "Determinism additionally relies on the engine's result terms mentioning only receiver state, arguments and init-time tables.",
-      "DESIGN.md 6/C15")
+      "Frame conditions over the symbolic heap: every query, report construction and export leaves every pre-existing heap cell (object fields, names maps, package-level tables) unchanged for every input in the bounds; Decode writes only to objects it allocates; constructors share nothing; GetX results do not depend on the map iteration order (symbolic permutation, C20 harnesses). One arbitrary step from an arbitrary state covers histories of any length. A frame difference is a candidate only: it is replayed natively and counts if it is observable through the exported API. History freedom is also stated observationally: two-history harnesses (v2, v3, reports) run the same second vector with and without an arbitrary first vector / report / failed decode and require equal observations (this is what decides caches and memo tables, which frames would wrongly flag when correct and cannot see across objects when wrong); decoder objects that are used twice are covered by conditional reuse harnesses.",
+      "Determinism additionally relies on the engine's result terms mentioning only receiver state, arguments and init-time tables. sync.Map / sync.Once / mutexes are given their sequential meaning.",
+      "DESIGN.md 6/C15, 12.1")
 claim("C16",
-      "Non-interference argument discharged with the solver (no schedule exploration): empty write sets on shared locations for every operation class and input within bounds (the C15 frame obligations), plus a static SSA scan for goroutines, sync primitives and stores to package-level variables outside initialisers; Bernstein's conditions then give race freedom and equality with sequential use.",
-      "Library internals (fmt, text/template, errs, x/text) trusted to be goroutine-safe; the Go memory model itself is trusted.",
+      "Non-interference argument discharged with the solver (no schedule exploration): empty write sets on shared locations for every operation class and input within bounds (the C15 frame obligations), plus a static SSA scan for goroutines, sync primitives and stores to package-level variables outside initialisers; Bernstein's conditions then give race freedom and equality with sequential use. A candidate write that is not observable sequentially is replayed concurrently (8 goroutines released together x 25 runs, up to 6 process starts) under the Go race detector and reported if it races. Synchronised shared state is inside the argument only in two forms: sync.Map on scalar payloads, and sync.Once.Do on a package-level Once whose initialised variables are accessed only after a dominating Do (SSA dominator check); mutexes, atomics and goroutine starts in the library make the check inconclusive.",
+      "Library internals (fmt, text/template, errs, x/text) trusted to be goroutine-safe; the Go memory model itself is trusted. The concurrent replay is a dynamic confirmation of solver-found candidates, not an exploration of schedules.",
       "DESIGN.md 6/C16", category="other")
 claim("C17",
       "For every canonical vector of each level (values symbolic) and every language tag (English, Japanese, any other): each of the ~110 report fields equals the names function / metric query of the metric it is named after, evaluated on the same object; version, vector, score renderings and severities per level incl. shadowing through the embedded reports; default language = English.",
